@@ -4,31 +4,31 @@ import json, os
 
 CLAIMS = {
  "C12": {
-  "text": "Decides: source routing of the access ops (ThisAddress / ThisContractAddress read the predicate / contract field of this_solution(); PredicateData* read this_solution().predicate_data; PredicateExists receives the whole set); checked range resolution (usize::try_from, checked_add, slice.get only, the popped words feed (value_ix, len) in the documented order); sibling encodings agree (the VM's and essential-sign's 33-byte public-key encodings have the same structure, recover pops id / 8 / 4 words and rebuilds the compact signature and digest, the 9-word signature layout); every SHA-256 user is new/update(input)/finalize; the PredicateExists pre-image order (len-prefixed slots, contract, predicate, big-endian bytes); five zero words on an unrecoverable signature. Partial claim: byte-length marshalling (pop_bytes rounding/truncation) and cryptographic answers are not decided. Also decided: byte operands (ceil(len/8) words, big-endian bytes in stack order, cut to len), VerifyEd25519 pop order / verify(key, data, signature) / pushed bit, and that every result of the range resolver is the checked sub-slice.",
+  "text": "Decides: source routing of the access ops (ThisAddress / ThisContractAddress read the predicate / contract field of this_solution(); PredicateData* read this_solution().predicate_data; PredicateExists receives the whole set); checked range resolution (usize::try_from, checked_add, slice.get only, the popped words feed (value_ix, len) in the documented order); sibling encodings agree (the VM's and essential-sign's 33-byte public-key encodings have the same structure, recover pops id / 8 / 4 words and rebuilds the compact signature and digest, the 9-word signature layout); every SHA-256 user is new/update(input)/finalize; the PredicateExists pre-image order (len-prefixed slots, contract, predicate, big-endian bytes); five zero words on an unrecoverable signature. Partial claim: byte-length marshalling (pop_bytes rounding/truncation) and cryptographic answers are not decided. Also decided: byte operands (ceil(len/8) words, big-endian bytes in stack order, cut to len), VerifyEd25519 pop order / verify(key, data, signature) / pushed bit, and that every result of the range resolver is the checked sub-slice. The sign crate recovers a key exactly where secp256k1 does (acceptance tables), so the op and essential_sign agree on which signatures yield a key.",
   "note": "Trusted: sha2, secp256k1, ed25519-dalek.",
   "technique": "static analysis: provenance of call arguments against expected source fields, structural comparison of sibling encoders, call-sequence whitelists",
   "design_ref": "3/C12",
  },
  "C14": {
-  "text": "Decides: mapping decides acceptance only through Opcode::try_from and ParseOp::parse_op on one byte iterator (exactly two rejecting paths, Ok only at end of input) - the same two functions the list parser uses; exec_ops/exec_bytecode/eval_ops and the TryFrom impls are single forwarding calls; the index table and bytes are private and written only by try_from_bytes (offset of each accepted opcode byte, after parse_op succeeded), push_op (len before extend with to_bytes), Default and FromIterator via push_op; op(ix) is the first of ops_from(ix), the OpAccess impls are get/op(ix).map(Ok), compute children get a clone of the same accessor. Partial claim: equality of final machine states between the two execution paths follows from these + C13 informally.",
+  "text": "Decides: mapping decides acceptance only through Opcode::try_from and ParseOp::parse_op on one byte iterator (exactly two rejecting paths, Ok only at end of input) - the same two functions the list parser uses; exec_ops/exec_bytecode/eval_ops and the TryFrom impls are single forwarding calls; the index table and bytes are private and written only by try_from_bytes (offset of each accepted opcode byte, after parse_op succeeded), push_op (len before extend with to_bytes), Default and FromIterator via push_op; op(ix) is the first of ops_from(ix), the OpAccess impls are get/op(ix).map(Ok), compute children get a clone of the same accessor. Partial claim: equality of final machine states between the two execution paths follows from these + C13 informally. The shared operand parser decides on the bytes alone (C13-O5 re-evaluated).",
   "note": "Backs the expects in expect_ops_from_indices reviewed under C05/C06.",
   "technique": "static analysis: return tables, who-may-write rule for private fields, exact call-sequence comparison of thin wrappers",
   "design_ref": "3/C14",
  },
  "C18": {
-  "text": "Partial claim: round-trip equality over all values is value-level and NOT decided. Decided necessary conditions: big-endian pair and identity layouts of the four fixed-width converters and of Signature <-> [u8; 65]; every serde serializer/deserializer pair branches on is_human_readable with the same polarity and the same family (hex / sequence) on each side; predicate and mutation encoders, size helpers and decoders agree on offsets (linear forms), the list codec writes/reads the count first and advances by encode_size; node_edges is empty exactly for edge_start == MAX and otherwise a checked sub-range; the legacy field names (data, decision_variables) reach the same fields as the current names and only current names are written; Display/FromStr use encode_upper/decode with the same array length. Also decided: derived binary framing (every struct field written unconditionally in order; visit_seq reads one element per field in that order) and that list decoders stop exactly at the end of input.",
+  "text": "Partial claim: round-trip equality over all values is value-level and NOT decided. Decided necessary conditions: big-endian pair and identity layouts of the four fixed-width converters and of Signature <-> [u8; 65]; every serde serializer/deserializer pair branches on is_human_readable with the same polarity and the same family (hex / sequence) on each side; predicate and mutation encoders, size helpers and decoders agree on offsets (linear forms), the list codec writes/reads the count first and advances by encode_size; node_edges is empty exactly for edge_start == MAX and otherwise a checked sub-range; the legacy field names (data, decision_variables) reach the same fields as the current names and only current names are written; Display/FromStr use encode_upper/decode with the same array length. Also decided: derived binary framing (every struct field written unconditionally in order; visit_seq reads one element per field in that order) and that list decoders stop exactly at the end of input. The predicate decoder returns only after reading all four parts; human-readable deserializers accept owned input.",
   "note": "Trusted: hex, serde, postcard. Breaking any decided clause breaks a round trip; the converse is not claimed.",
   "technique": "static analysis: aggregate-element provenance (layouts), path-condition polarity pairing, symbolic linear forms of offsets, string-literal to field tables of derive-generated visitors",
   "design_ref": "3/C18",
  },
  "C19": {
-  "text": "Decides: sign, verify and recover each hash the contract they are given with content_addr and use exactly those 32 bytes as the secp256k1 message digest, signing / recovering with exactly that message, storing the compact signature with its own recovery id (order independence of the digest: sort-before-hash of the contract address, re-evaluated here); malformed recovery ids / signatures take `?` error paths and no unreviewed panic-capable construct is reachable from the signing API or check_signed_contract (panic-path engine); check_signed_contract accepts only after verify and check_contract succeeded; the word encodings are those the VM's recovery op consumes/produces. Partial claim: that tampering changes the recovered key is cryptography (trusted).",
+  "text": "Decides: sign, verify and recover each hash the contract they are given with content_addr and use exactly those 32 bytes as the secp256k1 message digest, signing / recovering with exactly that message, storing the compact signature with its own recovery id (order independence of the digest: sort-before-hash of the contract address, re-evaluated here); malformed recovery ids / signatures take `?` error paths and no unreviewed panic-capable construct is reachable from the signing API or check_signed_contract (panic-path engine); check_signed_contract accepts only after verify and check_contract succeeded; the word encodings are those the VM's recovery op consumes/produces. Partial claim: that tampering changes the recovered key is cryptography (trusted). A signature is accepted exactly when a key can be recovered from it: acceptance tables of recover_from_message, verify_hash, contract::{verify,recover} and check_signed_contract; the predicate encoding behind each address is total and laid out as decoded.",
   "note": "Trusted: secp256k1; C17 for the contract address.",
   "technique": "static analysis: provenance of digests through the call chain, return tables, panic-site enumeration with dominance-based discharge",
   "design_ref": "3/C19",
  },
  "C01": {
-  "text": "Partial claim. The behavioural equivalence with the graph reference semantics (exactly-once execution, numbering independence, concatenation order, gas/data-output equality) is NOT decided by static analysis. Decided clauses: graph validation (parent map, level order) dominates every site that can start a node program; an empty level while nodes remain (cycle) and invalid edge ranges are errors; every edge value used as a node index is compared with nodes.len(); the leaf interpretation table is exactly [1] -> satisfied, [2] -> data output of vm.memory, anything else -> unsatisfied, with leaf = node without edges and parents exporting (stack, memory); parent inputs are taken from the parent map in ascending order and each node runs the program of its own address. Deferral closure and the run-mode split are decided under C03. Also decided: the level-order bookkeeping per edge (in-degree = entries of the parent list, one decrement per edge of a finished parent, removal after scheduling), and that per-solution data (cross-pass cache, predicate, index, outputs, computed mutations) stays with its solution by index.",
+  "text": "Partial claim. The behavioural equivalence with the graph reference semantics (exactly-once execution, numbering independence, concatenation order, gas/data-output equality) is NOT decided by static analysis. Decided clauses: graph validation (parent map, level order) dominates every site that can start a node program; an empty level while nodes remain (cycle) and invalid edge ranges are errors; every edge value used as a node index is compared with nodes.len(); the leaf interpretation table is exactly [1] -> satisfied, [2] -> data output of vm.memory, anything else -> unsatisfied, with leaf = node without edges and parents exporting (stack, memory); parent inputs are taken from the parent map in ascending order and each node runs the program of its own address. Deferral closure and the run-mode split are decided under C03. Also decided: the level-order bookkeeping per edge (in-degree = entries of the parent list, one decrement per edge of a finished parent, removal after scheduling), and that per-solution data (cross-pass cache, predicate, index, outputs, computed mutations) stays with its solution by index. The node-output maps only grow during the level loop; node_edges answers None for malformed ranges (table).",
   "note": "These are necessary conditions of the property; breaking any of them changes verdicts. The sufficient direction is out of reach for this technique family.",
   "technique": "static analysis: dominance of validation over execution sites, return tables of the graph functions, match table of the leaf interpretation",
   "design_ref": "3/C01",
@@ -40,7 +40,7 @@ CLAIMS = {
   "design_ref": "3/C08",
  },
  "C09": {
-  "text": "Decides, by comparing each function's return table (returned value per path + the normalised conditions dominating it) with the specified table: bool_from_word is exactly 0/1; every condition operand goes through it and every branch on it is dominated by its success; jump_if's four outcomes (fall through, JumpedToSelf on 0, checked_sub on negative, checked_add otherwise); halt_if/panic_if; eval = exec error or bool_from_word(last) with InvalidEvaluation otherwise; the pc plumbing of Vm::exec per control-flow variant and which variants leave the loop; RepeatEnd/Repeat bookkeeping tables (pop exactly when done, counter steps by one, stored resume index pc+1, initial counters). Partial claim: trip counts and counter values over whole executions follow from these tables only informally.",
+  "text": "Decides, by comparing each function's return table (returned value per path + the normalised conditions dominating it) with the specified table: bool_from_word is exactly 0/1; every condition operand goes through it and every branch on it is dominated by its success; jump_if's four outcomes (fall through, JumpedToSelf on 0, checked_sub on negative, checked_add otherwise); halt_if/panic_if; eval = exec error or bool_from_word(last) with InvalidEvaluation otherwise; the pc plumbing of Vm::exec per control-flow variant and which variants leave the loop; RepeatEnd/Repeat bookkeeping tables (pop exactly when done, counter steps by one, stored resume index pc+1, initial counters). Partial claim: trip counts and counter values over whole executions follow from these tables only informally. A Repeat is accepted exactly while the repeat stack holds fewer than its limit of slots.",
   "note": "Return tables are semantic summaries read from MIR; a refactor that changes the shape of an expression without changing behaviour must be re-reviewed.",
   "technique": "static analysis: per-path return tables (provenance terms + dominating path-condition atoms) compared with specified tables",
   "design_ref": "3/C09",
@@ -52,25 +52,25 @@ CLAIMS = {
   "design_ref": "3/C02",
  },
  "C10": {
-  "text": "Decides the structural clauses of Compute: deterministic index-ordered join (rayon consumer into Vec, first error by index), the fork guarded by breadth >= 1 and depth < MAX_COMPUTE_DEPTH = 1, the child's initial state table (pc+1, parent stack clone + one guarded push of the index, fresh memory, parent-memory snapshot, cloned repeat/cache/access/op accessor, same gas limit and state), the join (one alloc of the summed child lengths dominating all stores, stores in result order at a pointer starting at the old length and advancing by each child's length, pc = max, halt = disjunction, gas = saturating sum, child error propagated first), and that the parent's stack is popped once. Partial claim: `as if run one after another` follows from C02 + these tables informally.",
+  "text": "Decides the structural clauses of Compute: deterministic index-ordered join (rayon consumer into Vec, first error by index), the fork guarded by breadth >= 1 and depth < MAX_COMPUTE_DEPTH = 1, the child's initial state table (pc+1, parent stack clone + one guarded push of the index, fresh memory, parent-memory snapshot, cloned repeat/cache/access/op accessor, same gas limit and state), the join (one alloc of the summed child lengths dominating all stores, stores in result order at a pointer starting at the old length and advancing by each child's length, pc = max, halt = disjunction, gas = saturating sum, child error propagated first), and that the parent's stack is popped once. Partial claim: `as if run one after another` follows from C02 + these tables informally. compute fails for exactly the documented reasons (missing breadth word, breadth < 1, depth reached, child error, join error).",
   "note": "Bounds of alloc/store are C05; gas limit handling is C07.",
   "technique": "static analysis: aggregate-field provenance table for the child Vm, dominance and def-use of the join closures, resolved rayon consumer types",
   "design_ref": "3/C10",
  },
  "C04": {
-  "text": "Decides the structural necessary conditions of order independence: the set address sorts the very slice it hashes and every set-address entry point reaches that leaf; per-solution addresses depend on one solution only (plain content_addr mapped over the solutions); the duplicate-slot detection must span all solutions and be keyed by contract. The last rule is violated on the pinned tree (open known finding K2). Partial claim: equality of verdict/gas/computed mutations under permutation is not decided as a behavioural fact. Also decided: set validation iterates all solutions plainly (no take/skip/filter adaptor, Ok only after the last one), and per-solution data is matched by solution index (C01-R6 re-evaluated).",
+  "text": "Decides the structural necessary conditions of order independence: the set address sorts the very slice it hashes and every set-address entry point reaches that leaf; per-solution addresses depend on one solution only (plain content_addr mapped over the solutions); the duplicate-slot detection must span all solutions and be keyed by contract. The last rule is violated on the pinned tree (open known finding K2). Partial claim: equality of verdict/gas/computed mutations under permutation is not decided as a behavioural fact. Also decided: set validation iterates all solutions plainly (no take/skip/filter adaptor, Ok only after the last one), and per-solution data is matched by solution index (C01-R6 re-evaluated). The duplicate set used while computing mutations is fresh for every solution (C16-R4 re-evaluated).",
   "note": "Known finding K2 (per-solution duplicate set) is recorded, not repaired: the repair changes which sets validation accepts. Relies on C02 (determinism) for the informal step from structure to behaviour.",
   "technique": "static analysis: dominance (sort before hash on the same slice), call-graph delegation table, loop-scope analysis of the duplicate-detection collection",
   "design_ref": "3/C04",
  },
  "C15": {
-  "text": "Decides both analyses exactly at the level of their tables: every Effects flag has exactly one `|=` arm reachable only for the op variant of the same name; every `return true` of the byte scan is guarded by byte == opcode(G::V) and effects.contains(Effects::V) for the same V with the byte taken from the main iterator, all flags covered, `false` only at end of input; every spec op with immediates advances the same iterator by exactly num_arg_bytes without returning and nothing else advances it. With C13 (unique opcode bytes) this yields the `exactly when` of the property for all byte strings.",
+  "text": "Decides both analyses exactly at the level of their tables: every Effects flag has exactly one `|=` arm reachable only for the op variant of the same name; every `return true` of the byte scan is guarded by byte == opcode(G::V) and effects.contains(Effects::V) for the same V with the byte taken from the main iterator, all flags covered, `false` only at end of input; every spec op with immediates advances the same iterator by exactly num_arg_bytes without returning and nothing else advances it. With C13 (unique opcode bytes) this yields the `exactly when` of the property for all byte strings. The checker's deferral query names exactly the Post* flags (C03-R3 re-evaluated).",
   "note": "Trusted: bitflags (contains, |=), Iterator::take/for_each; C13 for opcode injectivity.",
   "technique": "static analysis: path-condition atoms over MIR switch edges paired with flag constants; iterator-advance whitelist checked against asm.yml",
   "design_ref": "3/C15",
  },
  "C17": {
-  "text": "Decides: sort-before-hash on the very slice hashed for contracts (salt last) and sets; delegation agreement of all address entry points per type down to one SHA-256 leaf with unmodified arguments; SHA-256 users are new/update(input)/finalize; encoder, size helper and decoder agree on the predicate layout - widths are read off the encoder's iterator chain and closures, the size helper's linear form must equal them, the decoder's four ranges must be 0..2, 2..2+34n, 2+34n..4+34n, 4+34n..4+34n+2m; every variable-length part is length-prefixed with constant widths (injectivity skeleton). Partial claim: injectivity of postcard and SHA-256 collision resistance are trusted. Also decided: the serde pre-hash encoding is positional and complete (every declared field written unconditionally in declaration order).",
+  "text": "Decides: sort-before-hash on the very slice hashed for contracts (salt last) and sets; delegation agreement of all address entry points per type down to one SHA-256 leaf with unmodified arguments; SHA-256 users are new/update(input)/finalize; encoder, size helper and decoder agree on the predicate layout - widths are read off the encoder's iterator chain and closures, the size helper's linear form must equal them, the decoder's four ranges must be 0..2, 2..2+34n, 2+34n..4+34n, 4+34n..4+34n+2m; every variable-length part is length-prefixed with constant widths (injectivity skeleton). Partial claim: injectivity of postcard and SHA-256 collision resistance are trusted. Also decided: the serde pre-hash encoding is positional and complete (every declared field written unconditionally in declaration order). The Predicate address is the hash of the encoding exactly when the predicate is encodable; the predicate decoder returns only after reading all four parts.",
   "note": "Trusted: sha2, postcard, slice::sort, derived Ord of ContentAddress.",
   "technique": "static analysis: dominance, call-graph delegation table, symbolic linear forms over MIR arithmetic compared between encoder, size helper and decoder",
   "design_ref": "3/C17",
@@ -88,19 +88,19 @@ CLAIMS = {
   "design_ref": "3/C11",
  },
  "C07": {
-  "text": "Decides the structural clauses of gas accounting on every path of Vm::exec: the op-executing call is dominated by success of checked_add(total, op_gas_cost(op)) filtered by `sum <= gas_limit.total` for the very op it executes (so an op that would exceed the limit has no effect); every definition of the running total is 0 or the payload of such a checked, limit-filtered sum, including the gas joined from compute children; no unchecked u64 arithmetic exists in essential-vm / essential-check; the checker sums with saturating_add. Partial claim: the value statement `reported gas = sum of executed costs` is decided only as this structure. Also decided: Iterator::sum/product over u64 counts as raw arithmetic; the limit captured by the compute closure is resolved to the operand the parent passes (its own parameter, or a rebuilt limit whose total derives from it); inside the arm of each node kind no path leaves without adding the node's gas.",
+  "text": "Decides the structural clauses of gas accounting on every path of Vm::exec: the op-executing call is dominated by success of checked_add(total, op_gas_cost(op)) filtered by `sum <= gas_limit.total` for the very op it executes (so an op that would exceed the limit has no effect); every definition of the running total is 0 or the payload of such a checked, limit-filtered sum, including the gas joined from compute children; no unchecked u64 arithmetic exists in essential-vm / essential-check; the checker sums with saturating_add. Partial claim: the value statement `reported gas = sum of executed costs` is decided only as this structure. Also decided: Iterator::sum/product over u64 counts as raw arithmetic; the limit captured by the compute closure is resolved to the operand the parent passes (its own parameter, or a rebuilt limit whose total derives from it); inside the arm of each node kind no path leaves without adding the node's gas. The compute gas is joined on every path through the ComputeResult arm of Vm::exec.",
   "note": "Assumes OpGasCost is a pure function. Observation K1 (children each receive the full limit) is documented, not claimed as a violation. Termination follows informally from R1 with positive costs.",
   "technique": "static analysis: MIR dominance (check-before-use), def-use enumeration of the gas accumulator, operator/type scan for unchecked u64 arithmetic",
   "design_ref": "3/C07",
  },
  "C16": {
-  "text": "Decides exactly the accept/reject boundary of every validator limit: each of the eight limit constants is compared once, evaluates to the documented number, is compared with the documented quantity, rejects exactly when quantity > LIMIT (normalised relation, so >= for > is caught), raises the documented error and is unconditional; validators are guarded by success of their sub-validators on the right arguments over whole collections; the per-solution duplicate-key test and the declared-vs-computed duplicate test are present and probe the right set. A boundary is a single comparison per limit, so its exact form for all inputs is readable from MIR.",
+  "text": "Decides exactly the accept/reject boundary of every validator limit: each of the eight limit constants is compared once, evaluates to the documented number, is compared with the documented quantity, rejects exactly when quantity > LIMIT (normalised relation, so >= for > is caught), raises the documented error and is unconditional; validators are guarded by success of their sub-validators on the right arguments over whole collections; the per-solution duplicate-key test and the declared-vs-computed duplicate test are present and probe the right set. A boundary is a single comparison per limit, so its exact form for all inputs is readable from MIR. Signed-contract acceptance equals verify and check_contract succeeding, and verify adds no condition beyond recoverability (C19-R6); the computed-key duplicate set is fresh per solution.",
   "note": "Not decided: std's len(), the sum in state_mutations_len (C06), the signature check itself (C19).",
   "technique": "static analysis: normalised path-condition atoms over MIR switch edges compared with a limit table; dominance for call plumbing",
   "design_ref": "3/C16",
  },
  "C05": {
-  "text": "Decides, for every program and operand: (a) no panic-capable construct (overflow/bounds/division Assert, panicking std call, panic!/unreachable!) is reachable from Vm::{exec,eval,..}/step_op* unless it is discharged by a structural rule or by a reviewed table line whose recorded dominating guards are re-verified on each run; an Assert(Overflow) site covers both build modes; (b) every function that can mutate the inner vector of Stack/Memory/Repeat or the parent-memory stack is enumerated and growth is only reachable under the right comparison with the right limit constant (4096/10240/4096/1). This is an exhaustive enumeration over all paths of the type-checked program, which no finite test set gives. It is a review gate: a new unguarded panic-capable site, a removed/weakened guard or a new writer is reported. Also decided: a child VM cloning the parent-memory stack is created only after the guarded depth push; the construction-time validation (C14 R1/R3) and the join arithmetic (C10 R4) that reviewed `expect`s cite are re-evaluated; reviewed panic sites may carry caller-side guards that are re-checked at every call site.",
+  "text": "Decides, for every program and operand: (a) no panic-capable construct (overflow/bounds/division Assert, panicking std call, panic!/unreachable!) is reachable from Vm::{exec,eval,..}/step_op* unless it is discharged by a structural rule or by a reviewed table line whose recorded dominating guards are re-verified on each run; an Assert(Overflow) site covers both build modes; (b) every function that can mutate the inner vector of Stack/Memory/Repeat or the parent-memory stack is enumerated and growth is only reachable under the right comparison with the right limit constant (4096/10240/4096/1). This is an exhaustive enumeration over all paths of the type-checked program, which no finite test set gives. It is a review gate: a new unguarded panic-capable site, a removed/weakened guard or a new writer is reported. Also decided: a child VM cloning the parent-memory stack is created only after the guarded depth push; the construction-time validation (C14 R1/R3) and the join arithmetic (C10 R4) that reviewed `expect`s cite are re-evaluated; reviewed panic sites may carry caller-side guards that are re-checked at every call site. The call graph includes the `?` conversions (<F as From<E>>::from); no conversion that builds OpError::Compute/StateRead is reachable from a non-compute step function.",
   "note": "Trusted: std callees outside the panic table are total (listed in evidence); third-party crates; table reasons that rest on caller-side invariants (each marked in tables/panic_sites.json). Not decided: which error is returned; termination.",
   "technique": "static analysis: call-graph reachability + MIR panic-site enumeration with dominance-based guard discharge; who-may-write rule for bounded containers",
   "design_ref": "3/C05",
@@ -112,7 +112,7 @@ CLAIMS = {
   "design_ref": "3/C06",
  },
  "C13": {
-  "text": "The codec is generated, table-driven code; the property reduces to agreement of finite tables which is decided exactly (about 1050 obligations): the six tables recovered from MIR (TryFrom<u8>, From<opcode> for u8 + discriminants, ToBytes + bytes iterators, ParseOp, ToOpcode, short constants) agree with asm.yml read independently and with the pinned opcode table, immediates are exactly num_arg_bytes big-endian bytes both ways, and the streaming functions add no decision. Both round-trip directions and unambiguity follow by the two-line argument recorded in the evidence. Also decided: the byte-level effects scanner (a second reader of the encoding) skips exactly num_arg_bytes after each opcode with an immediate.",
+  "text": "The codec is generated, table-driven code; the property reduces to agreement of finite tables which is decided exactly (about 1050 obligations): the six tables recovered from MIR (TryFrom<u8>, From<opcode> for u8 + discriminants, ToBytes + bytes iterators, ParseOp, ToOpcode, short constants) agree with asm.yml read independently and with the pinned opcode table, immediates are exactly num_arg_bytes big-endian bytes both ways, and the streaming functions add no decision. Both round-trip directions and unambiguity follow by the two-line argument recorded in the evidence. Also decided: the byte-level effects scanner (a second reader of the encoding) skips exactly num_arg_bytes after each opcode with an immediate. A short immediate is detected only by the byte iterator running dry (no size-hint or other pre-check) in every generated parse_op.",
   "note": "Trusted: PyYAML's reading of asm.yml; rustc's lowering of match tables; tables/opcodes_pinned.json.",
   "technique": "static analysis: table extraction from MIR switch/aggregate structure, cross-checked against the YAML specification and a pinned table",
   "design_ref": "3/C13",
